@@ -112,6 +112,9 @@ func Build(verifDir, repoDir, tag string, plain bool) (*Env, error) {
 		return nil, Harness("scratch base: %v", err)
 	}
 	scratch, err := os.MkdirTemp(base, "vsim-"+tag+"-")
+	if err == nil {
+		os.Chmod(scratch, 0755) // processes running as an ordinary user must be able to reach their files
+	}
 	if err != nil {
 		return nil, Harness("mktemp: %v", err)
 	}
